@@ -444,23 +444,34 @@ def param_rebound_signature(tree, name, executed_lines):
 
 
 def inplace_signature(tree, name, executed_lines):
-  """The last executed module-level store to `name` is an augmented assignment."""
+  """The last executed module-level store to `name` is an augmented assignment, or a plain
+  assignment whose right-hand side reads a name whose own last executed store is one (one hop)."""
   import ast
-  last = (0, None)
-  for st in ast.walk(tree):
-    targets = []
-    if isinstance(st, ast.Assign):
-      targets = st.targets
-    elif isinstance(st, (ast.AugAssign, ast.AnnAssign)):
-      targets = [st.target]
-    for t in targets:
-      for n in ast.walk(t):
-        if isinstance(n, ast.Name) and n.id == name and st.lineno in executed_lines and st.lineno >= last[0]:
-          last = (st.lineno, st)
-  if isinstance(last[1], ast.AugAssign):
-    return {"augassign_line": last[0]}
-  return None
 
+  def last_store(nm):
+    last = (0, None)
+    for st in ast.walk(tree):
+      targets = []
+      if isinstance(st, ast.Assign):
+        targets = st.targets
+      elif isinstance(st, (ast.AugAssign, ast.AnnAssign)):
+        targets = [st.target]
+      for t in targets:
+        for n in ast.walk(t):
+          if isinstance(n, ast.Name) and n.id == nm and st.lineno in executed_lines and st.lineno >= last[0]:
+            last = (st.lineno, st)
+    return last
+
+  line, st = last_store(name)
+  if isinstance(st, ast.AugAssign):
+    return {"augassign_line": line}
+  if isinstance(st, ast.Assign):
+    for n in ast.walk(st.value):
+      if isinstance(n, ast.Name):
+        l2, st2 = last_store(n.id)
+        if isinstance(st2, ast.AugAssign) and l2 <= line:
+          return {"augassign_line": l2, "through": n.id}
+  return None
 
 def closure_signature(tree, func_names):
   """Some function among `func_names` (or any, if empty) contains a nested def/lambda reading a
@@ -544,3 +555,18 @@ def notrun_callee_signature(tree, callee, executed_lines, called_sites=None):
       if nm in group and called_sites is not None and id(c) not in in_def and (nm, c.lineno) not in called_sites:
         return {"function": nm, "module_level_call_never_made_at_line": c.lineno}
   return None
+
+
+def attr_store_callees(tree, attr, executed_lines):
+  """Names of functions/methods called on the right-hand side of executed `X.attr = ...` statements."""
+  import ast
+  out = set()
+  for st in ast.walk(tree):
+    if isinstance(st, ast.Assign) and st.lineno in executed_lines and any(
+        isinstance(t, ast.Attribute) and t.attr == attr for t in st.targets):
+      for c in ast.walk(st.value):
+        if isinstance(c, ast.Call):
+          nm = c.func.id if isinstance(c.func, ast.Name) else (c.func.attr if isinstance(c.func, ast.Attribute) else None)
+          if nm:
+            out.add(nm)
+  return out
